@@ -543,8 +543,23 @@ pub fn run_property(prop: &Prop, tier: Tier, seed: u64, root: PathBuf, only_stre
         let done_ref = &done;
         let wd = scope.spawn(move || -> Option<i32> {
             let mut handled: HashSet<String> = HashSet::new();
+            let mut ticks = 0u64;
             while !done_ref.load(Ordering::Relaxed) {
                 std::thread::sleep(Duration::from_millis(50));
+                ticks += 1;
+                // memory guard: a runaway allocation (e.g. a parser loop that stops consuming) must not
+                // take the machine down; look at it like at a stall, but at once
+                if ticks % 4 == 0 && rss_bytes() > (12u64 << 30) {
+                    let mut longest = sh_ref.stalled(Duration::from_millis(500));
+                    longest.sort_by_key(|x| std::cmp::Reverse(x.1));
+                    if sh_ref.stall_is_violation() {
+                        if let Some((_, _, v)) = longest.first() {
+                            handle_stall(sh_ref, v);
+                        }
+                    }
+                    println!("INCONCLUSIVE property={} the harness process exceeded 12 GiB of memory; giving up", sh_ref.id);
+                    std::process::exit(2);
+                }
                 for (key, elapsed, v) in sh_ref.stalled(Duration::from_secs(20)) {
                     if elapsed > Duration::from_secs(900) {
                         println!("INCONCLUSIVE property={} a case has been running for 15 minutes", sh_ref.id);
@@ -670,6 +685,18 @@ pub fn run_property(prop: &Prop, tier: Tier, seed: u64, root: PathBuf, only_stre
     }
 }
 
+fn rss_bytes() -> u64 {
+    std::fs::read_to_string("/proc/self/statm").ok().and_then(|s| s.split_whitespace().nth(1).and_then(|x| x.parse::<u64>().ok())).map(|p| p * 4096).unwrap_or(0)
+}
+
+/// address-space limit for this process (a runaway allocation then aborts instead of exhausting the machine)
+pub fn limit_memory(gib: u64) {
+    unsafe {
+        let lim = libc::rlimit { rlim_cur: gib << 30, rlim_max: gib << 30 };
+        libc::setrlimit(libc::RLIMIT_AS, &lim);
+    }
+}
+
 fn child_cpu_seconds(pid: u32) -> Option<f64> {
     let stat = std::fs::read_to_string(format!("/proc/{pid}/stat")).ok()?;
     let rest = stat.rsplit_once(')')?.1;
@@ -704,7 +731,13 @@ fn handle_stall(sh: &Shared, v: &Value) {
     let mut last_cpu = 0.0f64;
     loop {
         match child.try_wait() {
-            Ok(Some(_)) => {
+            Ok(Some(status)) => {
+                use std::os::unix::process::ExitStatusExt;
+                if let Some(sig) = status.signal() {
+                    println!("VIOLATION property={} replay={}", sh.id, path);
+                    println!("  signature=crash: the isolated process dies with signal {sig} on this case (abort / stack overflow / memory exhaustion)");
+                    std::process::exit(1);
+                }
                 if last_cpu > 10.0 {
                     println!("VIOLATION property={} replay={}", sh.id, path);
                     println!("  signature=slow: the case needs {last_cpu:.1} s of CPU time in an isolated process (inputs within the property's bounds normally need milliseconds); bounded-time clause");
